@@ -1,11 +1,14 @@
 (* C06 — I/O errors never turn into success or into 'file absent'.
-   Statements only; proofs in Proofs/Faults.v.  PARTIAL: proved per filesystem primitive for the
-   per-object operations (every error path of verify_path / update_entry_for_path); propagation
-   through the directory walk is the error monad of the model and is exercised, together with the
-   real os.* calls, by fault injection at every call. *)
+   Statements only; proofs in Proofs/Faults.v and Proofs/WalkComplete.v.  Proved per filesystem primitive for the
+   per-object operations (every error path of verify_path / update_entry_for_path) and through the whole directory
+   verification: when it returns (with any handler), every directory the walk reaches was listed and inspected without
+   error, and for every file found there - and every entry of the merged dictionary - the per-object check itself returned
+   an answer rather than an error (C06_walk_hides_no_error), so an object that cannot be opened makes the whole
+   verification end with that error (C06_unreadable_found_file_fails_the_walk).  PARTIAL: propagation through Manifest
+   loading and the update walk is the error monad of the model, exercised with the real os.* calls by fault injection. *)
 From Coq Require Import List NArith ZArith.
-From Gemato Require Import Py.PyStr Py.PyPath Gen.Tables Model.Entry Model.Hash Model.FS Model.Verify.
-From Gemato Require Import Proofs.Faults.
+From Gemato Require Import Py.PyStr Py.PyPath Gen.Tables Model.Entry Model.Text Model.OpenPGP Model.Hash Model.FS Model.Verify Model.Loader.
+From Gemato Require Import Proofs.Faults Proofs.DirSpec Proofs.OnlyOffending Proofs.WalkComplete.
 Import ListNotations.
 Open Scope N_scope.
 
@@ -43,3 +46,71 @@ Theorem C06_update_open_error : forall (L : hashlib) w path t p a s c hs dev lm 
   update_entry_for_path L w path (EFile t p a s c) hs dev lm = Err (XOS en).
 Proof. exact update_entry_open_error. Qed.
 Print Assumptions C06_update_open_error.
+
+(* ---- through the whole walk ------------------------------------------------------------------------------------- *)
+(* a directory verification that returns - success or failure, any handler - has hidden no error: every directory it reaches
+   (from the start, through listed sub-directories that are not hidden and have no entry) was listed and inspected, on the
+   expected device; for every visible file found there verify_path answered; and so it did for every entry of the merged
+   dictionary *)
+Theorem C06_walk_hides_no_error : forall (L : hashlib) decompress pgp w l path pol lm l' b log,
+  assert_directory_verifies L decompress pgp w l path pol lm = Ok (l', b, log) ->
+  exists ed, get_file_entry_dict L decompress pgp w l path None true = Ok (l', ed) /\
+    (forall dp rel, reach w ed (pjoin rootdir path) path dp rel ->
+       (exists ents st, p_scandir w dp = Ok ents /\ p_stat w dp = Ok st /\ (forall d, l_dev l' = Some d -> st_dev st = d)) /\
+       forall ents f, p_scandir w dp = Ok ents -> In f (map fst (filter (fun x => negb (snd x)) ents)) ->
+         visible (l_top l') rel f = true -> exists eo ok diff, verify_path L w (pjoin dp f) eo (l_dev l') lm = Ok (ok, diff)) /\
+    (forall dir dd n e, In (dir, dd) ed -> In (n, e) dd ->
+       exists dp ok diff, names_object path dp (pjoin dir n) /\ verify_path L w dp (Some e) (l_dev l') lm = Ok (ok, diff)).
+Proof.
+  intros L decompress pgp w l path pol lm l' b log H.
+  destruct (directory_verification_complete L decompress pgp w l path pol lm l' b log H) as [ed [E1 [E2 E3]]].
+  exists ed. split; [exact E1|split].
+  - intros dp rel Hr. destruct (E3 dp rel Hr) as [F1 F2]. split; [exact F1|].
+    intros ents f Hs Hf Hv. destruct (F2 ents f Hs Hf Hv) as [eo [[ok [diff [N1 _]]] _]]. exists eo, ok, diff. exact N1.
+  - intros dir dd n e Hd Hn. destruct (E2 dir dd n e Hd Hn) as [dp [N0 [ok [diff [N1 _]]]]]. exists dp, ok, diff. split; [exact N0|exact N1].
+Qed.
+Print Assumptions C06_walk_hides_no_error.
+
+(* hence: a visible file that the walk finds and that cannot be opened (any errno except the three that mean "absent" /
+   "exists, not opened") makes the verification end with an error - it does not return, neither True nor False *)
+Theorem C06_unreadable_found_file_fails_the_walk : forall (L : hashlib) decompress pgp w l path pol lm ed l1 dp rel ents f en,
+  get_file_entry_dict L decompress pgp w l path None true = Ok (l1, ed) ->
+  reach w ed (pjoin rootdir path) path dp rel -> p_scandir w dp = Ok ents ->
+  In f (map fst (filter (fun x => negb (snd x)) ents)) -> visible (l_top l1) rel f = true ->
+  p_open w (pjoin dp f) = Err (XOS en) -> hard_errno en ->
+  (forall dd e, In (rel, dd) ed -> In (f, e) dd -> (forall d, e <> ETs d) /\ (forall p, e <> EIgn p)) ->
+  forall r, assert_directory_verifies L decompress pgp w l path pol lm = Ok r -> False.
+Proof.
+  intros L decompress pgp w l path pol lm ed l1 dp rel ents f en Hg Hr Hs Hf Hv Ho Hh Hne [[l' b] log] H.
+  destruct (directory_verification_complete L decompress pgp w l path pol lm l' b log H) as [ed' [E1 [_ E3]]].
+  rewrite Hg in E1. inversion E1; subst l1 ed'.
+  destruct (proj2 (E3 dp rel Hr) ents f Hs Hf Hv) as [eo [[ok [diff [N1 _]]] B]]. cbn [vc_dev vc_lm] in N1.
+  assert (X : verify_path L w (pjoin dp f) eo (l_dev l') lm = Err (XOS en)).
+  { apply verify_path_open_error; [exact Ho|exact Hh| |].
+    - intros d Hd. destruct B as [->|[e [dd [-> [B1 B2]]]]]; [discriminate|]. inversion Hd; subst. exact (proj1 (Hne dd _ B1 B2) d eq_refl).
+    - intros p Hd. destruct B as [->|[e [dd [-> [B1 B2]]]]]; [discriminate|]. inversion Hd; subst. exact (proj2 (Hne dd _ B1 B2) p eq_refl). }
+  rewrite X in N1. discriminate.
+Qed.
+Print Assumptions C06_unreadable_found_file_fails_the_walk.
+
+(* non-vacuity: Manifest 'DATA b 1', the file b; open() of b fails with EACCES: the premises hold, and the verification of the
+   whole tree ends with exactly that error *)
+From Gemato Require Import Exec.Oracles.
+Definition c06_w : world :=
+  mk_world 1 [(1, IDir 7 1 [([77;97;110;105;102;101;115;116], TIno 2); ([98], TIno 6)]);
+              (2, IFile 7 0 9 [68;65;84;65;32;98;32;49;10]); (6, IFile 7 0 1 [121])] [(POpen, 6, EACCES)] [].
+Definition c06_dec : list N -> list N -> res (list N) := fun _ _ => Err XBadCompressed.
+Definition c06_pgp : list N -> res sigdata := fun _ => Err (XPGP PGPNoImpl).
+Example C06_walk_example :
+  exists l0 l1 ed ents,
+    new_loader (table_hashlib []) c06_dec c06_pgp c06_w [77;97;110;105;102;101;115;116] (mk_opts None false None [] PDefault None None false) false true = Ok l0 /\
+    get_file_entry_dict (table_hashlib []) c06_dec c06_pgp c06_w l0 [] None true = Ok (l1, ed) /\
+    reach c06_w ed (pjoin rootdir []) [] (pjoin rootdir []) [] /\ p_scandir c06_w (pjoin rootdir []) = Ok ents /\
+    In [98] (map fst (filter (fun x => negb (snd x)) ents)) /\ visible (l_top l1) [] [98] = true /\
+    p_open c06_w (pjoin (pjoin rootdir []) [98]) = Err (XOS EACCES) /\ hard_errno EACCES /\
+    assert_directory_verifies (table_hashlib []) c06_dec c06_pgp c06_w l0 [] PolFalse None = Err (XOS EACCES).
+Proof.
+  do 4 eexists. split; [vm_compute; reflexivity|]. split; [vm_compute; reflexivity|]. split; [apply reach_here|].
+  split; [vm_compute; reflexivity|]. split; [vm_compute; right; left; reflexivity|]. split; [vm_compute; reflexivity|].
+  split; [vm_compute; reflexivity|]. split; [repeat split; discriminate|vm_compute; reflexivity].
+Qed.
